@@ -53,8 +53,28 @@ PROPS['C19'] = dict(
     level_note='Differential oracle: trusts libstdc++ std::atomic on x86-64; single thread; does not cover wait/notify '
                '(compiled out: YACLIB_FUTEX=0) nor operator=(T) of the THREAD wrapper (does not compile).',
     jobs=q(
-        [dict(target='atomic-fib', family='atomic_fiber', mode='random', cases=60000, workers=6, timeout=600),
-         dict(target='atomic-thr', family='atomic_thread', mode='random', cases=60000, workers=6, timeout=600)],
+        [dict(target='atomic-fib', family='atomic_fiber', mode='random', cases=30000, workers=8, timeout=600),
+         dict(target='atomic-thr', family='atomic_thread', mode='random', cases=30000, workers=8, timeout=600)],
         [dict(target='atomic-fib', family='atomic_fiber', mode='random', cases=600000, workers=8, timeout=3000),
          dict(target='atomic-thr', family='atomic_thread', mode='random', cases=600000, workers=8, timeout=3000)]),
+)
+
+PROPS['C18'] = dict(
+    level='exploration',
+    assumptions=FIBER_ASSUME + ['the fiber scheduler itself (run queue, sleep list, virtual clock) is trusted as substrate '
+                                'here; its own crashes surface as worker crashes and are reported'],
+    technique='rapidcheck stateful per-fiber operation sequences x explorer schedules against a holder-compatibility '
+              'model with busy windows, virtual-clock deadlines and exact deadlock detection',
+    level_text='2..4 fibers run generated lock/try/timed/shared/recursive sequences on each of the six mutex kinds, '
+               'token poster/waiter programs on condition_variable (all wait forms), join/TLS/sleep programs and a '
+               'reader-rendezvous scenario; the schedule (preemptions, run-queue picks, notify_one victims, timer '
+               'jitter) is chosen by the explorer. Incompatible holders, failed tries without cause, early timeouts, '
+               'wrong-mode acquisitions and any fiber left parked (exact quiescence check) are violations. Smallest '
+               'configurations are also enumerated exhaustively up to the preemption bound.',
+    level_note='Trusts the explorer hook and the scheduler substrate; liveness only as termination of bounded programs.',
+    jobs=q(
+        [dict(target='stdlocks', family='stdlocks', mode='random', cases=25000, workers=12, timeout=600),
+         dict(target='stdlocks', family='stdlocks', mode='dfs', bound=1, workers=4, timeout=600, args=['--dfs-cap', '30000'])],
+        [dict(target='stdlocks', family='stdlocks', mode='random', cases=300000, workers=14, timeout=3000),
+         dict(target='stdlocks', family='stdlocks', mode='dfs', bound=2, workers=9, timeout=3000)]),
 )
